@@ -285,6 +285,24 @@ Proof.
   - intros p' Hf Hk. unfold route. rewrite Hf, (route_by_key _ _ _ _ Hk), Hri. reflexivity.
 Qed.
 
+(* the cached fast path still stores the row in a shard of a group whose span contains the timestamp; either the
+   cached group was reused or the result is the catalogue's *)
+Theorem route_cached_covering_proof : forall cache c p g s,
+  route_cached hash cache c p = Some (g, s) ->
+  (g_start g <= p_time p < g_end g)%Z /\ In s (g_shards g) /\ (cache = Some g \/ route hash c p = Some (g, s)).
+Proof.
+  unfold route_cached, pick_group. intros cache c p g s H.
+  destruct cache as [g0|].
+  - destruct (g_contains g0 (p_time p)) eqn:Ec.
+    + destruct (route_in hash c g0 p) as [s0|] eqn:Er; [|discriminate]. inversion H; subst.
+      unfold g_contains in Ec. apply andb_true_iff in Ec as [E1 E2]. apply Z.leb_le in E1. apply Z.ltb_lt in E2.
+      split; [split; auto|]. split; [eapply route_in_shards; eauto|left; reflexivity].
+    + assert (Hr : route hash c p = Some (g, s)) by exact H.
+      pose proof (route_unique_covering_proof _ _ _ _ Hr) as [[_ [Hc [_ Hs]]] _]. auto.
+  - assert (Hr : route hash c p = Some (g, s)) by exact H.
+    pose proof (route_unique_covering_proof _ _ _ _ Hr) as [[_ [Hc [_ Hs]]] _]. auto.
+Qed.
+
 (* ------------------------------------------------------------------ pruning is sound *)
 Lemma target_group_sound : forall v c g cond p s,
   v_or v = true -> v_reset v = true ->
